@@ -915,7 +915,11 @@ func runConc(p ConcProg) (res *prog.Result) {
 			if d2 := done.Load(); d2 == d && deadlocked(total-int(d)) {
 				leaked += total - int(d)
 				prog.Count(concTest, "discard:signer-deadlock(eth2-key-manager SimpleSigner.lock/unlock)", 1)
-				// every unfinished goroutine is parked on a mutex for ever; none touches the db again
+				// every unfinished goroutine is parked on a mutex for ever; none touches the db again:
+				// close it and cut the references the parked goroutines still hold
+				w.close()
+				closeDB = false
+				w.fdb.Database, w.raw = nil, nil
 				return &prog.Result{Discard: true}
 			}
 		}
